@@ -569,6 +569,35 @@ def check_c11(chk, rng):
             if missing:
                 chk.violation("reduce-probe", "probe did not run in collection cycles %s" % missing, scn)
     chk.coverage["traces_validated_against_impl"] += len(scns)
+    # fixed-size lists reduced with a lifted scalar function (the operator's fast path): elements become valid in any
+    # order - index order, reverse, with gaps - and tick alone or together; level A = Dataflow.tla (lradd / lrmin / lrmax:
+    # the fold over exactly the valid elements, in every cycle in which an element ticks)
+    lprogs = []
+    for k in range(60 if quick else 1000):
+        horizon = rng.choice([6, 8])
+        first = rng.sample(range(1, horizon), 3)          # each element's first tick: a random order of becoming valid
+        nodes = []
+        for j in range(3):
+            later = sorted(rng.sample(range(first[j] + 1, horizon + 1), rng.randint(0, min(2, horizon - first[j]))))
+            nodes.append(P.node("src", script=[[t, rng.choice([1, 2, 3, 5, 8, -4])] for t in [first[j]] + later]))
+        for comb in rng.sample(["lradd", "lrmin", "lrmax"], rng.randint(1, 3)):
+            nodes.append(P.node(comb, ins=[1, 2, 3]))
+            nodes.append(P.node("rec", ins=[len(nodes)]))
+        lprogs.append(P.program(80000 + k, nodes, start=1, end=horizon + 1))
+    lpreds, lres = dfcheck.predict(lprogs, tag="c11list")
+    chk.add_tlc(lres, "fixed-list")
+    ltr = hg.run_driver("engine", [P.render(p) for p in lprogs])
+    for p, tr in zip(lprogs, ltr):
+        scn = P.render(p)
+        chk.count({"scn": scn})
+        if isinstance(tr, dict):
+            chk.violation("crash", "driver crashed/hung: %s" % json.dumps(tr)[:300], scn)
+            continue
+        diff = dfcheck.compare(p, lpreds[p["id"]], tr)
+        if diff:
+            chk.violation("reduce-fixed-list", "reduce_ over a fixed list differs from the fold over the valid elements (Dataflow.tla): " + diff,
+                          "# C11 fixed list\n" + scn + "\n")
+    chk.coverage["traces_validated_against_impl"] += len(lprogs)
     for k in (0, 1):
         chk.sample({"scenario": scns[k].splitlines(), "required": preds[hists[k]["id"]]})
     chk.coverage["rule"] = ("random histories of add / update / remove with several events per cycle, growth through the power-of-two capacities, "
